@@ -52,7 +52,7 @@ def apply_faults(U, letters, layout, faults):
     next_id = len(rows)
     for f in faults:
         k = f["kind"]
-        if not rows and k in ("drop_row", "dup_row", "relabel", "blank"):
+        if not rows and k in ("drop_row", "dup_row", "relabel", "blank", "relabel_known", "swap_labels"):
             continue
         i = f["pos"] % max(1, len(rows))
         if k == "drop_row":
@@ -71,6 +71,29 @@ def apply_faults(U, letters, layout, faults):
             l = cand[f["dim"] % len(cand)]
             unk = UNKNOWN[build.udim(U, l).get("dtype")] if build.udim(U, l).get("dtype") else ("zz_unknown" if isinstance(items[l][0], str) else 987654)
             rows[i] = [(dict(lab, **{l: unk}), v) for lab, v in rows[i]]
+        elif k in ("relabel_known", "swap_labels"):
+            # a cell gets ANOTHER KNOWN item (typo that is still a valid label), or two rows exchange one label:
+            # row count and per-column item counts can stay balanced while label combinations collide
+            cand = [l for l in letters if l != wide and l not in lay.get("drop_single", []) and len(items[l]) > 1]
+            if not cand:
+                continue
+            l = cand[f["dim"] % len(cand)]
+            if k == "relabel_known":
+                if not rows[i]:
+                    continue
+                cur = rows[i][0][0][l]
+                others = [it for it in items[l] if it != cur]
+                if cur not in items[l]:
+                    continue
+                new = others[f["pos2"] % len(others)]
+                rows[i] = [(dict(lab, **{l: new}), v) for lab, v in rows[i]]
+            else:
+                j = f["pos2"] % len(rows)
+                if not rows[i] or not rows[j]:
+                    continue
+                a, b = rows[i][0][0][l], rows[j][0][0][l]
+                rows[i] = [(dict(lab, **{l: b}), v) for lab, v in rows[i]]
+                rows[j] = [(dict(lab, **{l: a}), v) for lab, v in rows[j]] if j != i else rows[i]
         elif k == "blank":
             if not rows[i]:
                 continue
@@ -201,6 +224,11 @@ def run_fault_case(desc, weak_only=False):
     if not records:
         raise Discard("empty frame")
     df = frames.render(U, letters, records, lay, **kw)
+    if desc.get("dup_index") and not any(n is not None for n in df.index.names) and len(df) >= 2:
+        # a table glued together from parts without ignore_index: the integer row labels repeat
+        k_ = max(1, len(df) // 2)
+        df.index = list(range(k_)) + list(range(len(df) - k_))
+    df_before = df.copy(deep=True)
     am, ae = desc["allow_missing"], desc["allow_extra"]
     verdict, detail = contract(U, letters, [(l, v) for l, v in records], structural, am, ae)
     if unasserted and am:
@@ -213,7 +241,9 @@ def run_fault_case(desc, weak_only=False):
             raise Discard("a completely empty row cannot be represented in a CSV/Excel file")
     with tempfile.TemporaryDirectory(prefix="verif_c12_") as tmp:
         res, err = call_import(desc, U, letters, df, tmp)
-    cl = fault_classes(desc) + [f"expect:{verdict}"]
+    if not (df.equals(df_before) and list(df.columns) == list(df_before.columns) and df.index.equals(df_before.index)):
+        raise Violation("import-modified-input-frame", f"columns {list(df_before.columns)} -> {list(df.columns)}")
+    cl = fault_classes(desc) + [f"expect:{verdict}"] + (["repeated-row-labels"] if desc.get("dup_index") else [])
     ctx = f"faults {[(f['kind'], f['pos']) for f in desc['faults']]} flags missing={am} extra={ae} entry={desc['entry']} layout wide={layout.get('wide')} index={layout.get('index')} dims {letters}"
     items = build.uitems(U)
     # weak clause of C11: whatever is returned, every non-zero entry comes from the unique row with those labels
@@ -249,7 +279,7 @@ def run_fault_case(desc, weak_only=False):
     return {"nontrivial": bool(desc["faults"]) and (pos_late or bool(layout.get("wide")) or len(desc["faults"]) >= 2), "classes": cl}
 
 
-FAULT_KINDS = ["drop_row", "dup_row", "relabel", "blank", "drop_dimcol", "junk_cols", "wide_relabel", "wide_drop"]
+FAULT_KINDS = ["drop_row", "dup_row", "relabel", "blank", "drop_dimcol", "junk_cols", "wide_relabel", "wide_drop", "relabel_known", "swap_labels"]
 
 
 @st.composite
@@ -291,6 +321,7 @@ def fault_cases(draw, max_faults=2):
         "allow_missing": draw(st.booleans()),
         "allow_extra": draw(st.booleans()),
         "entry": draw(st.sampled_from(["from_df", "from_df", "set_values_from_df", "set_values_from_df", "csv", "excel"])),
+        "dup_index": draw(st.booleans()),
     }
 
 
@@ -338,6 +369,8 @@ class Single(Facet):
                         single_faults.append({"kind": "dup_row", "pos": pos, "pos2": pos2, "other_value": bool(pos % 2)})
                     for dim in range(len(letters) - (1 if lay["wide"] else 0)):
                         single_faults.append({"kind": "relabel", "pos": pos, "dim": dim})
+                        single_faults.append({"kind": "relabel_known", "pos": pos, "dim": dim, "pos2": pos % 2})
+                        single_faults.append({"kind": "swap_labels", "pos": pos, "dim": dim, "pos2": (pos + 1 + dim) % nrows})
                     for c in range(ncell):
                         single_faults.append({"kind": "blank", "pos": pos, "dim": c})
                 for dim in range(len(letters)):
@@ -372,7 +405,7 @@ class Combos(Facet):
         lens, kinds = ([3, 3], ["int", "str"]) if tier == "quick" else ([4, 3], ["int", "str"])
         U = {"dims": [{"letter": l, "name": gen.NAMES[l], "items": gen.items_for(l, k, n, kd), "dtype": gen.kind_dtype(kd)} for k, (l, n, kd) in enumerate(zip(letters, lens, kinds))]}
         lay = {"wide": None, "index": [], "header": {"a": "name", "b": "letter"}, "value_col": "value"}
-        kinds_ = ["drop_row", "dup_row", "relabel", "blank"]
+        kinds_ = ["drop_row", "dup_row", "relabel", "blank", "relabel_known", "swap_labels"]
         positions = [0, 4, 7]
         for r in (2, 3):
             for ks in it.product(kinds_, repeat=r):
@@ -380,7 +413,9 @@ class Combos(Facet):
                     faults = [{"kind": k, "pos": p, "pos2": p + 1, "dim": i, "other_value": bool(i % 2)} for i, (k, p) in enumerate(zip(ks, ps))]
                     for am in (False, True):
                         for ae in (False, True):
-                            yield {"universe": U, "letters": letters, "layout": lay, "faults": faults, "allow_missing": am, "allow_extra": ae, "entry": "from_df" if (am + ae) % 2 else "set_values_from_df"}
+                            for dup_index in ((False, True) if r == 2 else (ps[0] % 2 == 1,)):
+                                yield {"universe": U, "letters": letters, "layout": lay, "faults": faults, "allow_missing": am, "allow_extra": ae,
+                                       "entry": "from_df" if (am + ae) % 2 else "set_values_from_df", "dup_index": dup_index}
 
     def run(self, desc):
         return run_fault_case(desc)
